@@ -14,6 +14,7 @@
 
 #include <cmath>
 #include <map>
+#include <set>
 
 using vf::report;
 typedef std::size_t sz;
@@ -27,6 +28,10 @@ struct plan
     bool paired = false;         // replace the poisoned returns by zero
     sz calls = 0;                // integrand invocations so far
     sz map_calls = 0;            // coordinate evaluations so far (multi-channel)
+    // weight faults: whether the product f x w really is non-finite at a poisoned point is observed, not assumed
+    // (a library that does not look at the density of a disabled channel has an ordinary point there)
+    std::set<sz> observed;       // faulted run: poisoned calls at which f x w was non-finite
+    std::set<sz> zero_at;        // paired run: calls that return zero
 };
 
 static plan g;
@@ -64,7 +69,20 @@ struct fn
         if (it == g.poison.end()) return;
         if (g.src == src_value) { f = g.paired ? T() : bad_value<T>(it->second); dv = f; project = !g.paired; }
         else if (g.src == src_dist_value) { dv = g.paired ? T() : bad_value<T>(it->second); project = !g.paired; }
-        else if (g.paired) { f = T(); dv = T(); project = false; }     // weight fault: the pair returns zero at these points
+        else
+        {
+            if (g.paired && g.zero_at.count(index)) { f = T(); dv = T(); project = false; }     // weight fault: the pair returns zero where the product was non-finite
+            // a point whose value is zero anyway hands nothing to the distributions in either run (a zero entry times a
+            // non-finite weight is dropped, times a finite weight it is an entry: not a difference the property is about)
+            if (f == T()) project = false;
+        }
+    }
+    // weight faults: look at the weight of a poisoned point (both runs do, so that the protocol is the same)
+    template <typename P> static void observe(P const& p, sz index, T f)
+    {
+        if (g.src != src_weight || !g.poison.count(index)) return;
+        T const w = p.weight();
+        if (!g.paired && f != T() && !std::isfinite(f * w)) g.observed.insert(index);
     }
     T operator()(hep::mc_point<T> const& p) const { T f, dv; bool pr; values(p.point()[0], f, dv, pr); return f; }
     T operator()(hep::mc_point<T> const& p, hep::projector<T>& proj) const
@@ -73,10 +91,12 @@ struct fn
         if (pr) { proj.add(0, p.point()[0], dv); proj.add(1, p.point()[0], p.point()[1], dv); }
         return f;
     }
-    T operator()(hep::multi_channel_point<T> const& p) const { T f, dv; bool pr; values(p.coordinates()[0], f, dv, pr); return f; }
+    T operator()(hep::multi_channel_point<T> const& p) const { sz const index = g.calls; T f, dv; bool pr; values(p.coordinates()[0], f, dv, pr); observe(p, index, g.paired ? base_value<T>(index, p.coordinates()[0]) : f); return f; }
     T operator()(hep::multi_channel_point<T> const& p, hep::projector<T>& proj) const
     {
+        sz const index = g.calls;
         T f, dv; bool pr; values(p.coordinates()[0], f, dv, pr);
+        observe(p, index, g.paired ? base_value<T>(index, p.coordinates()[0]) : f);
         if (pr) { proj.add(0, p.coordinates()[0], dv); proj.add(1, p.coordinates()[0], p.point()[0], dv); }
         return f;
     }
@@ -208,9 +228,9 @@ static void enumerate(report& r)
             }
             else for (int k = 0; k != nkinds; ++k) assigns.push_back(std::vector<int>(members.size(), k));
 
-            // the pair: depends on the subset only
-            run_out pair;
-            bool have_pair = false;
+            // the pair depends on the set of points that return zero: the subset itself for faults of the integrand's
+            // value, the poisoned points at which the product with the weight was seen to be non-finite otherwise
+            std::map<std::set<sz>, run_out> pairs;
             for (auto const& a : assigns)
             {
                 std::string const id = base + " iter=" + std::to_string(iter) + " subset=" + std::to_string(subset) + " kinds=" + vf::join(a, "");
@@ -218,15 +238,22 @@ static void enumerate(report& r)
                 g.poison.clear();
                 for (sz i = 0; i != members.size(); ++i) g.poison[members[i]] = a[i];
                 g.src = src;
-                if (!have_pair) { g.paired = true; pair = run<T>(kind, dist != 0); have_pair = true; }
-                g.paired = false;
+                g.paired = false; g.observed.clear(); g.zero_at.clear();
                 auto const got = run<T>(kind, dist != 0);
                 r.eval();
+                std::set<sz> zero_at(members.begin(), members.end());
+                if (src == src_weight)
+                {
+                    zero_at = g.observed;
+                    if (zero_at.empty()) { r.count("weight_poison_without_non_finite_product"); continue; }   // the premise of the property is not met
+                }
+                if (!pairs.count(zero_at)) { g.paired = true; g.zero_at = zero_at; pairs[zero_at] = run<T>(kind, dist != 0); g.paired = false; }
+                run_out const& pair = pairs[zero_at];
                 std::string const what = id;
                 // expected difference in non_zero_calls
                 sz expect_extra = 0;
                 if (src == src_value) expect_extra = members.size();
-                else if (src == src_weight) for (sz m : members) expect_extra += base_value<T>(m, T(0.5)) != T();
+                else if (src == src_weight) expect_extra = zero_at.size();
                 std::string const d = vf::first_difference(got.desc, pair.desc);
                 if (!d.empty())
                 {
@@ -248,6 +275,7 @@ static void enumerate(report& r)
                     }
                 }
                 std::string const dc = vf::first_difference(got.cumulative, pair.cumulative);
+                if (!dc.empty() && std::getenv("VF_DEBUG")) std::fprintf(stderr, "GOT\n%s\nPAIR\n%s\nGOTC\n%s\nPAIRC\n%s\n", got.desc.c_str(), pair.desc.c_str(), got.cumulative.c_str(), pair.cumulative.c_str());
                 if (!dc.empty())
                     r.violate("contaminated/combined-result", id, what + ": the variance-weighted combination of the results (what the built-in callback reports and "
                         "decides on) differs from that of the run in which the same points returned zero: " + dc);
